@@ -5,7 +5,7 @@
   All theorems hold for every idna codec, every sequence of events, every addon script (`acts`: what the addons do in
   each hook) and every script of connect outcomes (`conns`).
 -/
-import MitmVerif.Lemmas.C27e
+import MitmVerif.Lemmas.C27f
 import MitmVerif.Props.C25
 set_option linter.unusedVariables false
 set_option linter.unusedSimpArgs false
@@ -135,7 +135,16 @@ theorem reply_is_packed (c : Cfg) (acts : List Act) (conns : List Bool) (evs : L
     unfold sendClient at ho
     cases hp : pack c.I m' with
     | none => simp [hp] at ho; rw [ho] at he; cases he
-    | some b => simp [hp] at ho; rw [ho] at he; cases he; exact ⟨b, hp, rfl⟩
+    | some b =>
+      cases hw : wireOf? c.tcp b with
+      | none => simp [hp, hw] at ho; rw [ho] at he; cases he
+      | some w' =>
+        simp [hp, hw] at ho; rw [ho] at he; cases he
+        refine ⟨b, hp, ?_⟩
+        unfold wireOf? at hw
+        split at hw
+        · cases hw
+        · cases hw; rfl
   -- every `toClient` of a run comes out of `sendClient`
   have hResp : ∀ σ k f m', Out.toClient m w ∈ (handleResponse c σ k f m').2 → ∃ b, pack c.I m = some b ∧ w = wireOf c.tcp b := by
     intro σ k f m' hm
@@ -160,7 +169,9 @@ theorem reply_is_packed (c : Cfg) (acts : List Act) (conns : List Bool) (evs : L
   have hSrv : ∀ σ q, Out.toClient m w ∈ (sendServer c σ q).2 → False := by
     intro σ q hm
     unfold sendServer at hm
-    cases hp : pack c.I q <;> simp [hp] at hm
+    cases hp : pack c.I q with
+    | none => simp [hp] at hm
+    | some b => cases hw : wireOf? c.tcp b <;> simp [hp, hw] at hm
   have hReq : ∀ σ k f q, Out.toClient m w ∈ (handleRequest c σ k f q).2 → ∃ b, pack c.I m = some b ∧ w = wireOf c.tcp b := by
     intro σ k f q hm
     unfold handleRequest at hm
@@ -320,7 +331,7 @@ theorem no_upstream_servfail (c : Cfg) (σ : State) (d : Bytes) (q : Msg) (hudp 
   have hr := flowFor_response σ.core q.id
   have hne : σ.core.phase ≠ .crashed := by rw [hq]; simp
   simp [step, hq, stepClient, extract, hudp, hu, handleMsgs, hne, clientMsg, handleRequest, popAct, hacts, applyAct, hr,
-    hup, handleError, setFlow, sendClient, hw, crashed]
+    hup, handleError, setFlow, sendClient, hw, crashed, wireOf?]
 
 /-- **C27 (upstream unreachable: SERVFAIL).** A query that no addon answers while the upstream server cannot be
     connected is reported through `dns_error` and answered with the SERVFAIL of exactly this query. -/
@@ -347,7 +358,7 @@ theorem connect_failure_servfail (c : Cfg) (σ : State) (d : Bytes) (q : Msg) (c
         | false => rfl
         | true => simp [hf] at hn
   simp [step, hq, stepClient, extract, hudp, hu, handleMsgs, hne, clientMsg, handleRequest, popAct, hacts, applyAct, hr, he,
-    hup, hopen, hfail, popConn, hconn, handleError, setFlow, sendClient, hw, crashed]
+    hup, hopen, hfail, popConn, hconn, handleError, setFlow, sendClient, hw, crashed, wireOf?]
 
 example : ∃ q, unpack udpNoUpstream.I q2 = some q ∧ (init [] []).core.acts = [] := by decide +kernel
 
@@ -563,17 +574,17 @@ theorem bad_length_closes (c : Cfg) (htcp : c.tcp = true) (σ : State) (hq : σ.
           have hsc : ∀ (τ' : Core) (m' : Msg), τ'.phase ≠ .crashed → (sendClient c τ' m').1.phase = .crashed →
               Out.crash ∈ (sendClient c τ' m').2 := by
             intro τ' m' a1 a2
-            unfold sendClient at a2 ⊢
-            cases hp : pack c.I m' with
-            | none => simp
-            | some b => simp [hp] at a2; exact absurd a2 a1
+            exact sendClient_crash c τ' m' a1 a2
           have hss : ∀ (τ' : Core) (m' : Msg), τ'.phase ≠ .crashed → (sendServer c τ' m').1.phase = .crashed →
               Out.crash ∈ (sendServer c τ' m').2 := by
             intro τ' m' a1 a2
             unfold sendServer at a2 ⊢
             cases hp : pack c.I m' with
             | none => simp
-            | some b => simp [hp] at a2; exact absurd a2 a1
+            | some b =>
+              cases hw : wireOf? c.tcp b with
+              | none => simp [hw]
+              | some w => simp [hp, hw] at a2; exact absurd a2 a1
           have hre : ∀ (τ' : Core) k f m', τ'.phase ≠ .crashed → (handleResponse c τ' k f m').1.phase = .crashed →
               Out.crash ∈ (handleResponse c τ' k f m').2 := by
             intro τ' k f m' a1 a2
@@ -978,21 +989,46 @@ example : outsOf udp [] [] [.clientData q0, .serverData r2q, .serverData r0] =
 
 /-! ### whole histories: what follows `dns_error` and a failed connect; exceptions -/
 
-private theorem run_shape (K : Prop) (c : Cfg) (acts : List Act) (conns : List Bool) (evs : List Ev)
-    (h : ∀ m ∈ addonMsgs acts, K ∨ Packable c.I m) : Shape K c (run c (init acts conns) evs).2 :=
-  (run_goodS K c evs (init acts conns) ⟨by intro k f hm; simp [init] at hm, h⟩).2
+private theorem run_shape (K : Prop) (c : Cfg) (hD : DFits K c) (acts : List Act) (conns : List Bool) (evs : List Ev)
+    (h : ∀ m ∈ addonMsgs acts, K ∨ Fits c m) : Shape K c (run c (init acts conns) evs).2 :=
+  (run_goodS K c hD evs (init acts conns) ⟨by intro k f hm; simp [init] at hm, h⟩).2
 
 /-- **C27 (SERVFAIL after every `dns_error`, every history).** Whatever the client, the upstream and the addons do:
     directly after every `dns_error` hook the layer sends to the client the SERVFAIL (`servfail_fields`: id, question
     section, opcode and RD kept, QR=1, RCODE=2; `servfail_bytes`: it decodes to itself) of the flow's request, which is
-    a query decoded from the client's bytes; that message always encodes — no exception can come in between. -/
+    a query decoded from the client's bytes.  The SERVFAIL always encodes; the ONLY other outcome is the exception
+    `pack_message` raises over TCP when that encoding is longer than 65535 bytes (the query's compressed question names
+    expanded) — always sent over UDP (`error_hook_then_servfail_udp`).
+    (Round 6: the former statement had no second outcome; it was true of the model only because `frame` wrapped the
+    length silently where `struct.pack("!H", …)` raises.) -/
 theorem error_hook_then_servfail (c : Cfg) (acts : List Act) (conns : List Bool) (evs : List Ev)
+    (pre post : List Out) (f : Flow) (htr : (run c (init acts conns) evs).2 = pre ++ .hook .error f :: post) :
+    ∃ q, f.request = some q ∧ (∃ w, unpack c.I w = some q) ∧
+      ((∃ b w, pack c.I (servfail q) = some b ∧ wireOf? c.tcp b = some w ∧ post.head? = some (.toClient (servfail q) w)) ∨
+       (¬ Fits c (servfail q) ∧ post.head? = some .crash)) := by
+  have hs := run_shape True c (fun _ _ => ⟨Or.inl trivial, Or.inl trivial⟩) acts conns evs (fun _ _ => Or.inl trivial)
+  rw [htr] at hs
+  obtain ⟨q, h1, h2, h3⟩ := Shape_at pre _ post hs
+  refine ⟨q, h1, h2, ?_⟩
+  rcases h3 with h | ⟨_, h4, h5⟩
+  · exact Or.inl h
+  · exact Or.inr ⟨h4, h5⟩
+
+/-- over UDP there is no second outcome -/
+theorem error_hook_then_servfail_udp (c : Cfg) (hudp : c.tcp = false) (acts : List Act) (conns : List Bool) (evs : List Ev)
     (pre post : List Out) (f : Flow) (htr : (run c (init acts conns) evs).2 = pre ++ .hook .error f :: post) :
     ∃ q b, f.request = some q ∧ (∃ w, unpack c.I w = some q) ∧ pack c.I (servfail q) = some b ∧
       post.head? = some (.toClient (servfail q) (wireOf c.tcp b)) := by
-  have hs := run_shape True c acts conns evs (fun _ _ => Or.inl trivial)
-  rw [htr] at hs
-  exact Shape_at pre _ post hs
+  obtain ⟨q, h1, h2, h3⟩ := error_hook_then_servfail c acts conns evs pre post f htr
+  rcases h3 with ⟨b, w, hb, hw, hp⟩ | ⟨hn, _⟩
+  · refine ⟨q, b, h1, h2, hb, ?_⟩
+    have : w = wireOf c.tcp b := by
+      unfold wireOf? at hw
+      split at hw
+      · cases hw
+      · cases hw; rfl
+    rw [← this]; exact hp
+  · exact absurd (Fits_udp hudp (Decoded.servfail_packable h2)) hn
 
 /-- **C27 (no upstream answer possible ⇒ `dns_error`, every history).** Every failed attempt to connect to the upstream
     — refused, or killed because an earlier attempt on this connection had failed — is directly followed by the
@@ -1001,24 +1037,54 @@ theorem failed_connect_then_error_hook (c : Cfg) (acts : List Act) (conns : List
     (pre post : List Out) (r : OpenRes) (hr : r = .fail ∨ r = .killed)
     (htr : (run c (init acts conns) evs).2 = pre ++ .opened r :: post) :
     ∃ f, post.head? = some (.hook .error f) := by
-  have hs := run_shape True c acts conns evs (fun _ _ => Or.inl trivial)
+  have hs := run_shape True c (fun _ _ => ⟨Or.inl trivial, Or.inl trivial⟩) acts conns evs (fun _ _ => Or.inl trivial)
   rw [htr] at hs
   have := Shape_at pre _ post hs
   rcases hr with h | h <;> rw [h] at this <;> exact this
 
-/-- **C27 (the layer never raises).** If every response the addon script sets can be encoded (`DNSMessage.packed` does
-    not raise on it), then in no history does an exception leave the layer: client queries, upstream replies and
-    synthesised SERVFAILs always encode, and no handler ever meets a flow without request. -/
+/-- **C27 (an exception leaves the layer only when a message cannot be put on the wire).** In every history: if the
+    layer raises, then some message it had to send — a response set by an addon, a decoded client query or upstream reply,
+    or the SERVFAIL of a decoded query — does not `Fit`: `DNSMessage.packed` raises on it (possible for addon-made
+    messages only) or, over TCP, its encoding exceeds the 65535 bytes of the length prefix.  No other source of
+    exceptions exists (in particular no handler ever meets a flow without request). -/
+theorem layer_raises_only_on_unencodable (c : Cfg) (acts : List Act) (conns : List Bool) (evs : List Ev)
+    (hcr : Out.crash ∈ (run c (init acts conns) evs).2) :
+    ∃ m, (m ∈ addonMsgs acts ∨ (∃ w, unpack c.I w = some m) ∨ (∃ q, (∃ w, unpack c.I w = some q) ∧ m = servfail q)) ∧
+      ¬ Fits c m := by
+  apply Classical.byContradiction
+  intro hno
+  have hall : ∀ m, (m ∈ addonMsgs acts ∨ Decoded c.I m ∨ (∃ q, Decoded c.I q ∧ m = servfail q)) → Fits c m := by
+    intro m hm
+    apply Classical.byContradiction
+    intro hf
+    exact hno ⟨m, hm, hf⟩
+  have hs := run_shape False c (fun m hm => ⟨Or.inr (hall m (Or.inr (Or.inl hm))), Or.inr (hall _ (Or.inr (Or.inr ⟨m, hm, rfl⟩)))⟩)
+    acts conns evs (fun m hm => Or.inr (hall m (Or.inl hm)))
+  obtain ⟨pre, post, he⟩ := List.append_of_mem hcr
+  rw [he] at hs
+  exact Shape_at pre _ post hs
+
+/-- **C27 (the layer never raises).** If every response the addon script sets can be put on the wire, and — over TCP — every
+    decoded message and the SERVFAIL of every decoded query re-encode within 65535 bytes (`DFits False c`; nothing to
+    assume over UDP: `layer_never_raises_udp`), then in no history does an exception leave the layer.
+    (Round 6: the former hypothesis "`pack` succeeds on the addons' responses" was not enough over TCP — the model's `frame`
+    wrapped the length where `pack_message` raises struct.error.) -/
 theorem layer_never_raises (c : Cfg) (acts : List Act) (conns : List Bool) (evs : List Ev)
-    (hadd : ∀ m ∈ addonMsgs acts, ∃ b, pack c.I m = some b) : Out.crash ∉ (run c (init acts conns) evs).2 := by
-  have hs := run_shape False c acts conns evs (fun m hm => Or.inr (hadd m hm))
+    (hadd : ∀ m ∈ addonMsgs acts, Fits c m) (hsmall : DFits False c) : Out.crash ∉ (run c (init acts conns) evs).2 := by
+  have hs := run_shape False c hsmall acts conns evs (fun m hm => Or.inr (hadd m hm))
   intro hmem
   obtain ⟨pre, post, he⟩ := List.append_of_mem hmem
   rw [he] at hs
   exact Shape_at pre _ post hs
 
+/-- over UDP the former statement stands as it was: encodable addon responses suffice -/
+theorem layer_never_raises_udp (c : Cfg) (hudp : c.tcp = false) (acts : List Act) (conns : List Bool) (evs : List Ev)
+    (hadd : ∀ m ∈ addonMsgs acts, ∃ b, pack c.I m = some b) : Out.crash ∉ (run c (init acts conns) evs).2 :=
+  layer_never_raises c acts conns evs (fun m hm => Fits_udp hudp (hadd m hm))
+    (fun m hm => ⟨Or.inr (Fits_udp hudp hm.packable), Or.inr (Fits_udp hudp hm.servfail_packable)⟩)
+
 example : Out.crash ∉ (run udp (init [.err, .clear] [false]) [.clientData q1, .serverData r1, .clientData q2]).2 :=
-  layer_never_raises udp _ _ _ (by intro m hm; simp [addonMsgs] at hm)
+  layer_never_raises_udp udp rfl _ _ _ (by intro m hm; simp [addonMsgs] at hm)
 
 /-- **C27 (no upstream ⇒ an addon's response or `dns_error`, every history).** On a connection without upstream
     server, every `dns_request` hook is directly followed by `dns_response` (an addon has set a response) or by
@@ -1046,18 +1112,18 @@ theorem no_upstream_request_then_response_or_error (c : Cfg) (hup : c.upstream =
       | _ => exact absurd h (by simp [isRespOrErrHook])
 
 /-- **C27 (a malformed length prefix closes the connection, every history, no alternative).** After any history in which
-    the layer is still serving, over TCP, if the addons' responses can be encoded: when the client's bytes (buffer plus new
+    the layer is still serving, over TCP, if the addons' responses can be put on the wire and (TCP) every decoded message re-encodes within 65535 bytes (`DFits False c`): when the client's bytes (buffer plus new
     segment) are complete frames followed by a zero length prefix, the messages in front of it are handled, then the
     client connection is closed and the layer is done — the `crashed` alternative of `bad_length_closes` cannot occur. -/
 theorem bad_length_closes_history (c : Cfg) (htcp : c.tcp = true) (acts : List Act) (conns : List Bool) (evs : List Ev)
-    (hadd : ∀ m ∈ addonMsgs acts, ∃ b, pack c.I m = some b) (d x rest : Bytes) (ms : List Msg)
+    (hadd : ∀ m ∈ addonMsgs acts, Fits c m) (hsmall : DFits False c) (d x rest : Bytes) (ms : List Msg)
     (hq : (run c (init acts conns) evs).1.core.phase = .query)
     (hx : (run c (init acts conns) evs).1.reqBuf ++ d = x ++ 0 :: 0 :: rest) (hms : parse c.I x = (ms, [], false)) :
     (step c (run c (init acts conns) evs).1 (.clientData d)).1.core.phase = .done ∧
     (step c (run c (init acts conns) evs).1 (.clientData d)).2 =
       (handleMsgs c true (run c (init acts conns) evs).1.core ms).2 ++ [.closeClient] := by
   obtain ⟨h1, h2, h3⟩ := bad_length_closes c htcp _ hq d x rest ms hx hms
-  have hnc := layer_never_raises c acts conns (evs ++ [.clientData d]) hadd
+  have hnc := layer_never_raises c acts conns (evs ++ [.clientData d]) hadd hsmall
   rw [run_snoc] at hnc
   have hdone : (step c (run c (init acts conns) evs).1 (.clientData d)).1.core.phase = .done := by
     cases hp : (step c (run c (init acts conns) evs).1 (.clientData d)).1.core.phase with
@@ -1068,14 +1134,14 @@ theorem bad_length_closes_history (c : Cfg) (htcp : c.tcp = true) (acts : List A
 
 /-- … and the same for the upstream's stream -/
 theorem bad_length_closes_server_history (c : Cfg) (htcp : c.tcp = true) (acts : List Act) (conns : List Bool) (evs : List Ev)
-    (hadd : ∀ m ∈ addonMsgs acts, ∃ b, pack c.I m = some b) (d x rest : Bytes) (ms : List Msg)
+    (hadd : ∀ m ∈ addonMsgs acts, Fits c m) (hsmall : DFits False c) (d x rest : Bytes) (ms : List Msg)
     (hq : (run c (init acts conns) evs).1.core.phase = .query) (ho : (run c (init acts conns) evs).1.core.serverOpen = true)
     (hx : (run c (init acts conns) evs).1.respBuf ++ d = x ++ 0 :: 0 :: rest) (hms : parse c.I x = (ms, [], false)) :
     (step c (run c (init acts conns) evs).1 (.serverData d)).1.core.phase = .done ∧
     (step c (run c (init acts conns) evs).1 (.serverData d)).2 =
       (handleMsgs c false (run c (init acts conns) evs).1.core ms).2 ++ [.closeServer] := by
   obtain ⟨h1, h2, h3⟩ := bad_length_closes_server c htcp _ hq ho d x rest ms hx hms
-  have hnc := layer_never_raises c acts conns (evs ++ [.serverData d]) hadd
+  have hnc := layer_never_raises c acts conns (evs ++ [.serverData d]) hadd hsmall
   rw [run_snoc] at hnc
   have hdone : (step c (run c (init acts conns) evs).1 (.serverData d)).1.core.phase = .done := by
     cases hp : (step c (run c (init acts conns) evs).1 (.serverData d)).1.core.phase with
@@ -1202,5 +1268,180 @@ example : (run tcp (init [] []) [.clientData (frame q2)]).1.core.phase = .query 
 example : (run tcp (init [] []) [.clientData (frame q1)]).1.core.serverOpen = true ∧
     (run tcp (init [] []) [.clientData (frame q1)]).1.respBuf ++ (frame r1 ++ [0, 0]) = frame r1 ++ 0 :: 0 :: [] ∧
     (parse tcp.I (frame r1)).2 = ([], false) ∧ (parse tcp.I (frame r1)).1.length = 1 := by decide +kernel
+
+/-! ### round 6: whose response is it?  (the addon disjunct of `reply_answers_query` restricted to THIS message's handling) -/
+
+/-- the message sent is the response set by a `.respond` action that is consumed at a hook of the handling that starts in
+    state `σ`: the first pending action (this message's first hook) or the second (its `dns_response` hook after a
+    `dns_request` hook) -/
+def SetHere (σ : Core) (m : Msg) : Prop :=
+  (popAct σ).1 = .respond m ∨ (popAct (popAct σ).2).1 = .respond m
+
+/-- **C27 (provenance of every reply, every history).** Every message sent to the client is sent while ONE message is
+    being handled, in a state `σ` of the history (it satisfies the flow invariant), and it is
+    (a) the SERVFAIL of the client query `q` being handled; or
+    (b) the response set by a `.respond` action consumed at a hook of THIS handling (`SetHere σ m`) — not a response some
+        addon set for another query earlier or later in the script; or
+    (c) the upstream message being handled, unchanged, and that message has the id and the question section of the query
+        stored under its id.
+    This is the per-message form of `reply_answers_query` that the cross-audit asked for: the disjunct
+    "`m ∈ addonMsgs acts`" (any response anywhere in the script — the shape of seed c27-4) is replaced by (b). -/
+theorem reply_provenance (c : Cfg) (acts : List Act) (conns : List Bool) (evs : List Ev) (m : Msg) (w : Bytes)
+    (hmem : Out.toClient m w ∈ (run c (init acts conns) evs).2) :
+    ∃ σ : Core, Inv (addonMsgs acts) σ ∧
+      ((∃ q, Out.toClient m w ∈ (clientMsg c σ q).2 ∧ m = servfail q) ∨
+       SetHere σ m ∨
+       (∃ f q, Out.toClient m w ∈ (serverMsg c σ m).2 ∧ σ.flows.lookup m.id = some f ∧ f.request = some q ∧
+          q.id = m.id ∧ m.questions = q.questions ∧ q ∈ σ.seen)) := by
+  obtain ⟨σ, x, fc, hinv, h⟩ := mem_run_toClient c (addonMsgs acts) m w evs (init acts conns) (Inv_init acts conns) hmem
+  refine ⟨σ, hinv, ?_⟩
+  cases fc with
+  | true =>
+    simp only [if_true] at h
+    rcases clientMsg_toClient c σ x m w h with h1 | ⟨m1, h1, h2⟩
+    · exact Or.inl ⟨x, h, h1⟩
+    · right; left
+      cases ha : (popAct (popAct σ).2).1 with
+      | respond m' => rw [ha] at h2; simp [resolve] at h2; subst h2; exact Or.inr ha
+      | pass => rw [ha] at h2; simp [resolve] at h2; subst h2; exact Or.inl h1
+      | err => rw [ha] at h2; simp [resolve] at h2; subst h2; exact Or.inl h1
+      | clear => rw [ha] at h2; simp [resolve] at h2
+  | false =>
+    simp only [Bool.false_eq_true, if_false] at h
+    obtain ⟨f, q, hl, hr, hq, hres⟩ := serverMsg_toClient c σ x m w h
+    cases ha : (popAct σ).1 with
+    | respond m' => rw [ha] at hres; simp [resolve] at hres; subst hres; exact Or.inr (Or.inl (Or.inl ha))
+    | clear => rw [ha] at hres; simp [resolve] at hres
+    | pass =>
+      rw [ha] at hres; simp [resolve] at hres; subst hres
+      obtain ⟨q', h1, h2, h3, _⟩ := hinv.1 _ _ (mem_of_lookup hl)
+      rw [hr] at h1; cases h1
+      exact Or.inr (Or.inr ⟨f, q, h, hl, hr, h2, hq, h3⟩)
+    | err =>
+      rw [ha] at hres; simp [resolve] at hres; subst hres
+      obtain ⟨q', h1, h2, h3, _⟩ := hinv.1 _ _ (mem_of_lookup hl)
+      rw [hr] at h1; cases h1
+      exact Or.inr (Or.inr ⟨f, q, h, hl, hr, h2, hq, h3⟩)
+
+/-- **C27 (unmodified replies answer a query — per message).** Whatever the addons do to OTHER queries: a message sent to
+    the client that was not set by an action consumed at a hook of its own handling has the id and the question section of
+    a query the client sent (`q ∈ σ.seen`: announced by a `dns_request` hook before). -/
+theorem unmodified_reply_answers_query (c : Cfg) (acts : List Act) (conns : List Bool) (evs : List Ev) (m : Msg) (w : Bytes)
+    (hmem : Out.toClient m w ∈ (run c (init acts conns) evs).2) :
+    ∃ σ : Core, Inv (addonMsgs acts) σ ∧
+      (SetHere σ m ∨ ∃ q, q.id = m.id ∧ q.questions = m.questions ∧
+        (q ∈ σ.seen ∨ Out.toClient m w ∈ (clientMsg c σ q).2)) := by
+  obtain ⟨σ, hinv, h⟩ := reply_provenance c acts conns evs m w hmem
+  refine ⟨σ, hinv, ?_⟩
+  rcases h with ⟨q, h1, h2⟩ | h | ⟨f, q, _, _, _, h4, h5, h6⟩
+  · exact Or.inr ⟨q, by rw [h2]; rfl, by rw [h2]; rfl, Or.inr h1⟩
+  · exact Or.inl h
+  · exact Or.inr ⟨q, h4, h5.symm, Or.inl h6⟩
+
+/-- **C27 (what `dns_response` reports — per message).** While the upstream message `m0` is handled the flow reported to
+    `dns_response` pairs `m0` with the query stored under its id (same id, same question section); while a client query is
+    handled, the response it reports is the one the action consumed at this query's `dns_request` hook set. -/
+theorem response_hook_provenance (c : Cfg) (σ : Core) (A : List Msg) (hinv : Inv A σ) :
+    (∀ m0 f, Out.hook .response f ∈ (serverMsg c σ m0).2 →
+      ∃ q, f.request = some q ∧ f.response = some m0 ∧ q.id = m0.id ∧ m0.questions = q.questions) ∧
+    (∀ q f, Out.hook .response f ∈ (clientMsg c σ q).2 →
+      f.request = some q ∧ ∃ m1, (popAct σ).1 = .respond m1 ∧ f.response = some m1) := by
+  constructor
+  · intro m0 f h
+    unfold serverMsg at h
+    cases hl : σ.flows.lookup m0.id with
+    | none => simp [hl] at h
+    | some f0 =>
+      simp only [hl] at h
+      obtain ⟨q, h1, h2, _, _⟩ := hinv.1 _ _ (mem_of_lookup hl)
+      simp only [h1] at h
+      split at h
+      · rename_i hq
+        unfold handleResponse at h
+        dsimp only at h
+        have hsc : ∀ τ r, Out.hook .response f ∉ (sendClient c τ r).2 := by
+          intro τ r hh
+          rcases (sendClient_spec c τ r).2 _ hh with h' | ⟨w', h'⟩ <;> cases h'
+        split at h
+        · simp at h; subst h; exact ⟨q, h1, rfl, h2, hq⟩
+        · simp only [List.mem_cons] at h
+          rcases h with h | h
+          · cases h; exact ⟨q, h1, rfl, h2, hq⟩
+          · exact absurd h (hsc _ _)
+      · simp at h
+  · intro q f h
+    unfold clientMsg handleRequest at h
+    dsimp only at h
+    have hsc : ∀ τ r, Out.hook .response f ∉ (sendClient c τ r).2 := by
+      intro τ r hh
+      rcases (sendClient_spec c τ r).2 _ hh with h' | ⟨w', h'⟩ <;> cases h'
+    have hss : ∀ τ r, Out.hook .response f ∉ (sendServer c τ r).2 := by
+      intro τ r hh
+      rcases (sendServer_spec c τ r).2 _ hh with h' | ⟨w', h'⟩ <;> cases h'
+    have herr : ∀ τ k g, Out.hook .response f ∉ (handleError c τ k g).2 := by
+      intro τ k g hh
+      unfold handleError at hh
+      dsimp only at hh
+      split at hh
+      · simp at hh
+      · simp only [List.mem_cons] at hh
+        rcases hh with hh | hh
+        · cases hh
+        · exact hsc _ _ hh
+    obtain ⟨p1, _⟩ := popAct_seen σ (q :: σ.seen)
+    split at h
+    · rename_i r hr
+      simp only [List.mem_cons] at h
+      rcases h with h | h
+      · cases h
+      · unfold handleResponse at h
+        dsimp only at h
+        have hf : f = { (applyAct (popAct { σ with seen := q :: σ.seen }).1 { flowFor σ q.id with request := some q }) with response := some r } := by
+          split at h
+          · simp at h; exact h
+          · simp only [List.mem_cons] at h
+            rcases h with h | h
+            · cases h; rfl
+            · exact absurd h (hsc _ _)
+        rw [p1] at hf hr
+        cases ha : (popAct σ).1 with
+        | respond m1 =>
+          rw [ha] at hr hf; simp [applyAct] at hr; subst hr
+          exact ⟨by rw [hf]; simp [applyAct], m1, rfl, by rw [hf]⟩
+        | pass => rw [ha] at hr; simp [applyAct, flowFor_response] at hr
+        | clear => rw [ha] at hr; simp [applyAct] at hr
+        | err => rw [ha] at hr; simp [applyAct, flowFor_response] at hr
+    · split at h
+      · simp only [List.mem_cons] at h
+        rcases h with h | h
+        · cases h
+        · exact absurd h (herr _ _ _)
+      · split at h
+        · simp only [List.mem_cons] at h
+          rcases h with h | h
+          · cases h
+          · exact absurd h (hss _ _)
+        · split at h
+          · simp only [List.mem_cons] at h
+            rcases h with h | h | h
+            · cases h
+            · cases h
+            · exact absurd h (herr _ _ _)
+          · split at h
+            · simp only [List.mem_cons] at h
+              rcases h with h | h | h
+              · cases h
+              · cases h
+              · exact absurd h (hss _ _)
+            · simp only [List.mem_cons] at h
+              rcases h with h | h | h
+              · cases h
+              · cases h
+              · exact absurd h (herr _ _ _)
+
+-- the stale-response shape of seed c27-4 cannot occur in the model: query id 1 answered by an addon (`.respond`), then a
+-- second query with the same id: nothing of the first answer is sent for it, it goes upstream
+example : outsOf udp [.respond (fail ⟨1, true, 0, false, false, true, false, 0, 0, [], [], [], []⟩ 0)] []
+    [.clientData q1, .clientData q1] = ["request", "response", "client:1:0", "request", "open", "server:1"] := by decide +kernel
 
 end MitmVerif.Props.C27
